@@ -6,7 +6,7 @@ mutual
 def FWFT : FTmpl → Prop
   | .base b => FBaseOk b
   | .cont isSeq kw name gs kids =>
-    KwOk kw (contLit isSeq) ∧ NameOk name ∧ GsOk gs ∧ FWFL kids ∧ ((declL kids).map Tmpl.name).Nodup
+    KwOk kw (contLit isSeq) ∧ RawNameOk name ∧ GsOk gs ∧ FWFL kids ∧ ((declL kids).map Tmpl.name).Nodup
   | .grid kw kwA kwM name gs arr maps => FGridOk kw kwA kwM name gs arr maps
 def FWFL : List FTmpl → Prop
   | [] => True
@@ -113,7 +113,7 @@ end
 
 structure FWFds (d : FDataset) : Prop where
   hkw : KwOk d.kw "dataset".toList
-  hname : NameOk d.name
+  hname : RawNameOk d.name
   hgs : GsOk d.gs
   hkids : FWFL d.kids
   hnodup : ((declL d.kids).map Tmpl.name).Nodup
